@@ -24,7 +24,7 @@ def _classes(kind: str, unique: bool):
 
 
 def _wcfg(tab: str, inst: int) -> tuple[int, int]:
-    return (2 if (inst == 2 and tab == "other_weights") else 1, 2 if (inst == 2 and tab == "other_config") else 1)
+    return (2 if (inst == 2 and tab in ("other_weights", "homonym")) else 1, 2 if (inst == 2 and tab == "other_config") else 1)
 
 
 def build(cfg: dict[str, Any], kind: str):
@@ -51,6 +51,9 @@ def build(cfg: dict[str, Any], kind: str):
             dec, base = _classes(kind, unique)
             cls = dec if decorated else base
             objs = {i: cls(*_wcfg(tab, i)) for i in (1, 2)}
+            if tab == "homonym" and decorated and kind == "plain":
+                # object 2 belongs to another decorated class with the same display name
+                objs[2] = (U.PlainUniqueHomonym if unique else U.PlainSharedHomonym)(*_wcfg(tab, 2))
 
         def fn(xa, xb, xc, xd, flip=None):
             xs = {(1, 1): xa, (2, 1): xb, (1, 2): xc, (2, 2): xd}
